@@ -141,3 +141,12 @@ func RunReplay(dir string) (reproduced bool, output string) {
 	}
 	return strings.Contains(output, "VERIF-ASSERT-FAILED "+ce.Assert), output
 }
+
+// RunReplayClean replays a passing path: the native run must consume exactly the recorded nondet
+// sequence, satisfy every assumption and fail no assertion.
+func RunReplayClean(dir string) (bool, string) {
+	_, out := RunReplay(dir)
+	ok := strings.Contains(out, "VERIF-REPLAY-DONE") && !strings.Contains(out, "VERIF-ASSERT-FAILED") &&
+		!strings.Contains(out, "VERIF-REPLAY-MISMATCH") && !strings.Contains(out, "VERIF-PANIC") && !strings.Contains(out, "VERIF-ASSUME-FALSE")
+	return ok, out
+}
